@@ -63,6 +63,9 @@ def ensure(verbose=True):
         hs = ext_hashes()
         cached = {n: os.path.join(CACHE, "so", f"{n}-{h}.so") for n, h in hs.items()}
         missing = [n for n, p in cached.items() if not os.path.exists(p)]
+        for n, p in cached.items():
+            if n not in missing:
+                os.utime(p)          # least-recently-USED pruning below
         if missing:
             t0 = time.time()
             tree = os.path.join(CACHE, "tree")
@@ -96,10 +99,10 @@ def ensure(verbose=True):
                 os.replace(tmp, cached[n])
             if verbose:
                 print(f"[wsbuild] rebuilt {missing} in {time.time()-t0:.0f}s", file=sys.stderr)
-            # prune old cached .so files (keep the 4 newest per extension)
+            # prune cached .so files (keep the 10 most recently used per extension)
             for n in EXTS:
                 olds = sorted(glob.glob(os.path.join(CACHE, "so", f"{n}-*.so")), key=os.path.getmtime, reverse=True)
-                for p in olds[4:]:
+                for p in olds[10:]:
                     if p != cached[n]:
                         os.remove(p)
         tag = hashlib.sha256(("".join(sorted(hs.values())) + py_hash()).encode()).hexdigest()[:16]
